@@ -579,6 +579,40 @@ func EdgesWhere(fn *ssa.Function, pred func(Cmp) bool) map[Edge]bool {
 			out[e] = true
 		}
 	}
+	// conditions that call an extracted predicate helper: the edge on which the helper
+	// returned true establishes every comparison the helper implies
+	for _, b := range fn.Blocks {
+		if len(b.Instrs) == 0 || len(b.Succs) != 2 || b.Succs[0] == b.Succs[1] {
+			continue
+		}
+		iff, ok := b.Instrs[len(b.Instrs)-1].(*ssa.If)
+		if !ok {
+			continue
+		}
+		cond, taken := iff.Cond, true
+		for {
+			if u, ok := cond.(*ssa.UnOp); ok && u.Op == token.NOT {
+				cond, taken = u.X, !taken
+				continue
+			}
+			break
+		}
+		cs, bind, ok := PredicateImplied(cond)
+		if !ok {
+			continue
+		}
+		restore := Bind(bind)
+		for _, c := range cs {
+			if pred(c) || pred(c.Flip()) {
+				if taken {
+					out[Edge{b, b.Succs[0]}] = true
+				} else {
+					out[Edge{b, b.Succs[1]}] = true
+				}
+			}
+		}
+		restore()
+	}
 	for pass := 0; pass < 3; pass++ {
 		for _, b := range fn.Blocks {
 			if len(b.Instrs) == 0 || len(b.Succs) != 2 || b.Succs[0] == b.Succs[1] {
@@ -633,4 +667,127 @@ func EdgesWhere(fn *ssa.Function, pred func(Cmp) bool) map[Edge]bool {
 func MustPassEdge(fn *ssa.Function, from, to ssa.Instruction, edges map[Edge]bool, barrier func(ssa.Instruction) bool) (bool, []int) {
 	r, path := Reach(Search{From: from, Fn: fn, Blocked: edges, Barrier: barrier}, Is(to))
 	return !r, path
+}
+
+// ---------------------------------------------------------------------------------
+// predicate helpers
+
+// PredicateImplied decodes a call to an extracted predicate helper (a repository function
+// with one bool result whose body is a conjunction of comparisons): it returns the
+// comparisons that hold whenever the helper returns true, in the helper's own values,
+// and the binding of its parameters to the arguments of this call.
+func PredicateImplied(cond ssa.Value) ([]Cmp, Binding, bool) {
+	call, ok := cond.(*ssa.Call)
+	if !ok {
+		return nil, nil, false
+	}
+	g := call.Call.StaticCallee()
+	if g == nil || g.Blocks == nil || !InRepo(g) || g.Signature.Results().Len() != 1 {
+		return nil, nil, false
+	}
+	if b, isB := g.Signature.Results().At(0).Type().Underlying().(*types.Basic); !isB || b.Kind() != types.Bool {
+		return nil, nil, false
+	}
+	var rets []*ssa.Return
+	pure := true
+	Instrs(g, func(in ssa.Instruction) {
+		switch x := in.(type) {
+		case *ssa.Return:
+			rets = append(rets, x)
+		case *ssa.Store, *ssa.MapUpdate, *ssa.Send, *ssa.Go, *ssa.Defer:
+			pure = false
+		case *ssa.Call:
+			if _, isBuiltin := x.Call.Value.(*ssa.Builtin); !isBuiltin {
+				pure = false
+			}
+		}
+	})
+	if !pure || len(rets) != 1 {
+		return nil, nil, false
+	}
+	var out []Cmp
+	var collect func(v ssa.Value, blk *ssa.BasicBlock, depth int) bool
+	collect = func(v ssa.Value, blk *ssa.BasicBlock, depth int) bool {
+		if depth > 6 {
+			return false
+		}
+		switch x := v.(type) {
+		case *ssa.BinOp, *ssa.UnOp:
+			c, ok := (Guard{nil, v, true}).AsCmp()
+			if !ok {
+				return false
+			}
+			out = append(out, c)
+			for _, gd := range BlockGuards(blk) {
+				if gc, ok := gd.AsCmp(); ok {
+					out = append(out, gc)
+				}
+			}
+			return true
+		case *ssa.Phi:
+			// a && b: the only non-false edge carries b, evaluated behind a
+			var live []int
+			for i, e := range x.Edges {
+				if k, isK := e.(*ssa.Const); isK && k.Value != nil && k.Value.String() == "false" {
+					continue
+				}
+				live = append(live, i)
+			}
+			if len(live) != 1 {
+				return false
+			}
+			return collect(x.Edges[live[0]], x.Block().Preds[live[0]], depth+1)
+		}
+		return false
+	}
+	if !collect(rets[0].Results[0], rets[0].Block(), 0) {
+		return nil, nil, false
+	}
+	b := Binding{}
+	for i, p := range g.Params {
+		if i < len(call.Call.Args) {
+			b[p] = call.Call.Args[i]
+		}
+	}
+	return out, b, true
+}
+
+// CmpGuardsX is CmpGuards that also expands predicate helpers that are known to have
+// returned true; the returned binding must be activated (Bind) while matching.
+func CmpGuardsX(in ssa.Instruction) ([]Cmp, Binding) {
+	var out []Cmp
+	bind := Binding{}
+	for _, g := range Guards(in) {
+		if c, ok := g.AsCmp(); ok {
+			out = append(out, c)
+			continue
+		}
+		cond, taken := g.Cond, g.Taken
+		for {
+			if u, ok := cond.(*ssa.UnOp); ok && u.Op == token.NOT {
+				cond, taken = u.X, !taken
+				continue
+			}
+			break
+		}
+		if !taken {
+			continue
+		}
+		if cs, b, ok := PredicateImplied(cond); ok {
+			conflict := false
+			for k, v := range b {
+				if old, has := bind[k]; has && old != v {
+					conflict = true
+				}
+			}
+			if conflict {
+				continue
+			}
+			for k, v := range b {
+				bind[k] = v
+			}
+			out = append(out, cs...)
+		}
+	}
+	return out, bind
 }
